@@ -38,6 +38,8 @@ def run(ctx):
     # one key, one value, no TTL, up to 4 checkpoints: EVERY operation sequence to depth 6 (7 thorough), so that state the model does
     # not have (caches keyed on "nothing was written since") cannot hide behind a different path to the same abstract state
     c.graph_leg(ctx, "Checkpoint.tla", "checkpoint", "Gen_Checkpoint_deep.cfg", {"Keys": ["k1"], "MaxCp": 4}, 200, 9, 6 if q else 7)
+    # StateConfig.enable_ttl (plain puts expire after the default TTL): every sequence to depth 6 over one key with clock advances
+    c.graph_leg(ctx, "Checkpoint.tla", "checkpoint", "Gen_Checkpoint_ttl.cfg", {"Keys": ["k1"], "MaxCp": 4, "DefTtl": 1}, 200, 9, 3 if q else 5)
     # retention of ONE checkpoint with up to four taken (ids of evicted checkpoints must not come back)
     c.graph_leg(ctx, "Checkpoint.tla", "checkpoint", "Gen_Checkpoint_ret1.cfg", {"Keys": ["k1"], "MaxCp": 1}, 200, 8, 5)
     if q:
